@@ -74,7 +74,7 @@ Section KeyedProofs.
 
   Lemma step_inv : forall s a s' ps, sound_variant -> Inv s -> step s a = (s', ps) -> Inv s'.
   Proof.
-    intros s a s' ps Hsv [HC HB] H. destruct a as [|k fresh|k others|k|i bv prev|k|k v|i dp1|i|k others|]; cbn [Keyed.step] in H.
+    intros s a s' ps Hsv [HC HB] H. destruct a as [|k fresh|k others|k|i bv prev|k|k v|i dp1|i|k others| |i]; cbn [Keyed.step] in H.
     - destruct (s_sub s); inversion H; subst; split; auto. intros k ks Hc; discriminate.
     - destruct (negb (s_sub s)); [inversion H; subst; split; auto|].
       match type of H with (if ?c then _ else _) = _ => destruct c end; inversion H; subst s' ps; clear H; (split; [|exact HB]).
@@ -112,6 +112,7 @@ Section KeyedProofs.
     - destruct (s_conn s k); inversion H; subst; [|split; auto]. split; [|exact HB].
       apply conn_upd_none; auto. intros k' Hk'. apply upd_other; auto.
     - destruct (s_keys s); inversion H; subst; (split; [|exact HB]); [exact HC|intros k' ks' Hc; discriminate].
+    - inversion H; subst. split; auto.
   Qed.
 
   Lemma inv_init : Inv init.
@@ -122,7 +123,7 @@ Section KeyedProofs.
     sound_variant -> Inv s -> step s a = (s', ps) -> In (PDelta k v base) ps -> s_held s k = Some base.
   Proof.
     intros s a s' ps k v base Hsv [HC HB] H Hin.
-    destruct a as [|k0 fresh|k0 others|k0|i bv prev|k0|k0 v0|i dp1|i|k0 others|]; cbn [Keyed.step] in H;
+    destruct a as [|k0 fresh|k0 others|k0|i bv prev|k0|k0 v0|i dp1|i|k0 others| |i]; cbn [Keyed.step] in H;
       try (split_step H; split_in Hin; cbn in Hin; intuition discriminate).
     destruct (nth_error (s_bc s) i) as [b|] eqn:En; [|inversion H; subst; destruct Hin].
     unfold deliver in H. cbn [s_conn s_held] in H.
@@ -178,7 +179,7 @@ Section KeyedProofs.
     (exists i dp1, a = ADeliver i dp1) \/ (exists fresh, a = ATrack k fresh).
   Proof.
     intros s a s' ps k v H Hin.
-    destruct a as [|k0 fresh|k0 others|k0|i bv prev|k0|k0 v0|i dp1|i|k0 others|]; cbn [Keyed.step] in H;
+    destruct a as [|k0 fresh|k0 others|k0|i bv prev|k0|k0 v0|i dp1|i|k0 others| |i]; cbn [Keyed.step] in H;
       try (split_step H; destruct Hin as [Hin|[b0 Hin]]; split_in Hin; cbn in Hin; intuition discriminate).
     - right. destruct (negb (s_sub s)); [inversion H; subst; destruct Hin as [[]|[b0 []]]|].
       match type of H with (if ?c then _ else _) = _ => destruct c end; inversion H; subst s' ps; clear H.
@@ -253,7 +254,7 @@ Section KeyedProofs.
               KeysInv (mkSt ent polls bc (upd (s_conn s) k0 v) sub held (add_tkey k0 (s_keys s)))).
     { intros k0 ent polls bc sub held v k Hk. cbn in *. unfold upd in Hk. apply in_add_tkey.
       destruct (Nat.eqb k k0) eqn:E; [apply Nat.eqb_eq in E; auto|right; apply HK; auto]. }
-    destruct a as [|k fresh|k others|k|i bv prev|k|k v|i dp1|i|k others|]; cbn [Keyed.step] in H.
+    destruct a as [|k fresh|k others|k|i bv prev|k|k v|i dp1|i|k others| |i]; cbn [Keyed.step] in H.
     - destruct (s_sub s); inversion H; subst; auto. intros k' Hk; cbn in Hk; congruence.
     - destruct (negb (s_sub s)); [inversion H; subst; auto|].
       match type of H with (if ?c then _ else _) = _ => destruct c end; inversion H; subst; apply Hadd.
@@ -267,6 +268,7 @@ Section KeyedProofs.
     - inversion H; subst; auto.
     - destruct (s_conn s k); inversion H; subst; auto.
     - destruct (s_keys s) eqn:Ek; inversion H; subst; intros k' Hk; cbn in Hk; [apply HK in Hk; rewrite Ek in Hk; auto|congruence].
+    - inversion H; subst; auto.
   Qed.
 
   Lemma keys_init : KeysInv init.
@@ -286,6 +288,60 @@ Section KeyedProofs.
   Qed.
 
   (* --- all schedules *)
+  (* --- bounded liveness for a late joiner.  The entry of a warm key is flagged for a connection that
+     is behind and not delta-ready, nothing else is in flight: ONE poll cycle (timer-driven or notified,
+     the model does not distinguish them) with a responsive backend whose version is at least the
+     entry's serves it - the request carries version 0, and after the response and the delivery of its
+     broadcast the connection holds the backend's version and the flag is cleared. *)
+  Lemma late_joiner_served : forall s k e ks bv prev dp1,
+    s_ent s k = Some e -> e_nb e = true -> 0 < e_ver e -> e_ver e <= bv ->
+    s_conn s k = Some ks -> ks_ver ks < e_ver e -> ks_ready ks = false ->
+    s_polls s = [] -> s_bc s = [] ->
+    forall s1 p1 s2 p2 s3 p3,
+    step s (APollReq k) = (s1, p1) -> step s1 (APollResp 0 bv prev) = (s2, p2) -> step s2 (ADeliver 0 dp1) = (s3, p3) ->
+    s_polls s1 = [(k, 0)] /\ p3 = [PFull k bv] /\ s_held s3 k = Some bv /\ s_conn s3 k = Some (mkKs bv true) /\
+    (exists e', s_ent s3 k = Some e' /\ e_nb e' = false /\ e_ver e' = bv).
+  Proof.
+    intros s k e ks bv prev dp1 He Hnb Hv Hbv Hc Hks Hr Hp Hb s1 p1 s2 p2 s3 p3 H1 H2 H3.
+    destruct s as [ent polls bc conn sub held keys]. cbn [s_ent s_polls s_bc s_conn] in *. subst polls bc.
+    cbn [Keyed.step s_ent s_polls s_bc s_conn s_sub s_held s_keys] in H1. rewrite He, Hnb in H1. cbn [app] in H1.
+    inversion H1; subst s1 p1; clear H1.
+    cbn [Keyed.step s_ent s_polls s_bc s_conn s_sub s_held s_keys nth_error remove_nth] in H2. rewrite He, Hnb in H2.
+    assert (L0 : Nat.ltb 0 (e_ver e) = true) by (apply Nat.ltb_lt; exact Hv).
+    assert (Hfin : forall ent' d, s2 = mkSt ent' [] [mkBc k bv d] conn sub held keys ->
+                   (d = None \/ exists pd, d = Some pd) ->
+                   p3 = [PFull k bv] /\ s_held s3 k = Some bv /\ s_conn s3 k = Some (mkKs bv true) /\ s_ent s3 = ent').
+    { intros ent' d -> _.
+      cbn [Keyed.step s_ent s_polls s_bc s_conn s_sub s_held s_keys nth_error remove_nth] in H3.
+      unfold deliver in H3. cbn [s_conn bc_key bc_ver bc_delta s_ent s_polls s_bc s_sub s_held s_keys] in H3. rewrite Hc in H3.
+      assert (Lv : Nat.leb bv (ks_ver ks) = false) by (apply Nat.leb_gt; lia). rewrite Lv, Hr in H3.
+      rewrite andb_false_r in H3. cbn [andb] in H3.
+      destruct d as [pd|]; inversion H3; subst s3 p3; cbn [s_held s_conn s_ent];
+        (split; [reflexivity|]; split; [apply upd_same|]; split; [apply upd_same|reflexivity]). }
+    rewrite L0 in H2. cbn [andb] in H2.
+    destruct (Nat.leb bv (e_ver e)) eqn:El.
+    - apply Nat.leb_le in El. assert (Eb : bv = e_ver e) by lia. subst bv.
+      destruct keep.
+      + inversion H2; subst s2 p2; clear H2.
+        destruct (Hfin _ None eq_refl (or_introl eq_refl)) as [A [B [C D]]].
+        split; [reflexivity|]. split; [exact A|]. split; [exact B|]. split; [exact C|].
+        rewrite D. eexists. split; [apply upd_same|]. split; reflexivity.
+      + rewrite Nat.eqb_refl in H2. inversion H2; subst s2 p2; clear H2.
+        destruct (Hfin _ None eq_refl (or_introl eq_refl)) as [A [B [C D]]].
+        split; [reflexivity|]. split; [exact A|]. split; [exact B|]. split; [exact C|].
+        rewrite D. eexists. split; [apply upd_same|]. split; reflexivity.
+    - inversion H2; subst s2 p2; clear H2.
+      match goal with |- context [mkBc k bv ?d] => idtac end || idtac.
+      match type of Hfin with _ => idtac end.
+      split; [reflexivity|].
+      match goal with H : step (mkSt ?ent' [] [mkBc k bv ?d] conn sub held keys) _ = _ |- _ =>
+        destruct (Hfin ent' d eq_refl) as [A [B [C D]]];
+          [destruct d; [right; eexists; reflexivity|left; reflexivity]|]
+      end.
+      split; [exact A|]. split; [exact B|]. split; [exact C|].
+      rewrite D. eexists. split; [apply upd_same|]. split; reflexivity.
+  Qed.
+
   Lemma run_inv : forall l s s' pss, sound_variant -> Inv s -> run s l = (s', pss) -> Inv s'.
   Proof.
     induction l as [|a t IH]; intros s s' pss Hsv HI H; cbn in H; [inversion H; subst; auto|].
